@@ -70,7 +70,13 @@ def check(case: Dict[str, Any]) -> CaseInfo:
                 break
             for idx, wt in rw:
                 u, v = edges[idx % len(edges)]
-                g.edges[u, v]["weight"] = wt
+                if isinstance(wt, list):  # ["swap", j]: exchange the weights of two edges (node count, edge count and total weight stay)
+                    u2, v2 = edges[wt[1] % len(edges)]
+                    g.edges[u, v]["weight"], g.edges[u2, v2]["weight"] = g.edges[u2, v2]["weight"], g.edges[u, v]["weight"]
+                else:
+                    g.edges[u, v]["weight"] = wt
+            if rw and all(isinstance(wt, list) for _, wt in rw):
+                classes.append("reweighting_by_swaps_only")
             best, _ = topo_longest_path(list(g.nodes), [(u, v, float(g.edges[u, v]["weight"])) for u, v in g.edges])
             if best <= 0:
                 classes.append("degenerate_all_zero_graph_skipped")  # no path of positive weight: outside the domain
@@ -99,6 +105,12 @@ def c09_case(draw):
     rounds = draw(st.sampled_from([1, 2, 2, 0]))
     case["reweight"] = [[[draw(st.integers(0, 200)), draw(st.sampled_from([0, 0, 1, 5, 50, 500]))]
                          for _ in range(draw(st.sampled_from([1, 2, 4, 8])))] for _ in range(rounds)]
+    # rounds that only move weight around (the weights of two edges exchanged): the graph keeps its node count, edge count
+    # and total weight while the optimum moves
+    for r in range(rounds):
+        if draw(st.sampled_from([True, False, False])):
+            case["reweight"][r] = [[draw(st.integers(0, 200)), ["swap", draw(st.integers(0, 200))]]
+                                   for _ in range(draw(st.sampled_from([1, 2, 3, 6])))]
     return case
 
 
